@@ -229,11 +229,10 @@ fn parse_number(text: &str) -> Result<(Option<usize>, &str), FormatSpecError> {
     if num_digits == 0 {
         return Ok((None, text));
     }
-    if let Ok(num) = text[..num_digits].parse::<usize>() {
-        Ok((Some(num), &text[num_digits..]))
-    } else {
-        // NOTE: this condition is different from CPython
-        Err(FormatSpecError::DecimalDigitsTooMany)
+    match text[..num_digits].parse::<usize>() {
+        // like CPython, which accumulates the digits in a Py_ssize_t
+        Ok(num) if num <= isize::MAX as usize => Ok((Some(num), &text[num_digits..])),
+        _ => Err(FormatSpecError::DecimalDigitsTooMany),
     }
 }
 
@@ -422,7 +421,8 @@ impl FormatSpec {
                 let zero_padded =
                     self.fill == Some('0') && self.align == Some(FormatAlign::AfterSign);
                 let width = if zero_padded {
-                    self.width.unwrap_or(magnitude_len) as i32 - prefix.len() as i32
+                    i32::try_from(self.width.unwrap_or(magnitude_len)).unwrap_or(i32::MAX)
+                        - prefix.len() as i32
                 } else {
                     magnitude_len as i32
                 };
@@ -677,7 +677,8 @@ impl FormatSpec {
         let num_chars = magnitude_str.char_len();
         let fill_char = self.fill.unwrap_or(' ');
         let fill_chars_needed: i32 = self.width.map_or(0, |w| {
-            cmp::max(0, (w as i32) - (num_chars as i32) - (sign_str.len() as i32))
+            let w = i32::try_from(w).unwrap_or(i32::MAX);
+            cmp::max(0, w - (num_chars as i32) - (sign_str.len() as i32))
         });
 
         let magnitude_str = magnitude_str.deref();
